@@ -130,7 +130,9 @@ func (st *State) ghostByText(text string, prefix string) *ghostTok {
 }
 
 // concreteBytes reads a byte slice whose content must be concrete (placeholder text).
-func (st *State) concreteBytes(v Value) (string, bool) {
+func (st *State) concreteBytes(v Value) (string, bool) { return st.concreteBytesN(v, 64) }
+
+func (st *State) concreteBytesN(v Value, max uint64) (string, bool) {
 	var p Ptr
 	var l *T
 	switch x := v.(type) {
@@ -142,7 +144,7 @@ func (st *State) concreteBytes(v Value) (string, bool) {
 		return "", false
 	}
 	ls := st.simp(l)
-	if !ls.IsConst() || ls.K > 64 {
+	if !ls.IsConst() || ls.K > max {
 		return "", false
 	}
 	if ls.K == 0 {
